@@ -23,6 +23,15 @@ go build ./... > "$W/build.log" 2>&1; BUILD=$?
 go test -count=1 -vet=off -run 'Demo|C[0-9][0-9]' ./$DIR/ > "$W/demo-mut.log" 2>&1; MUT=$?
 rm -f "$DIR/$NAME"
 go test -vet=off -count=1 -timeout 25m ./... > "$W/suite.log" 2>&1; SUITE=$?
+if [ $SUITE -ne 0 ]; then
+  # timing-based tests of the suite fail under CPU load: re-run the failing packages on their own (up to twice)
+  FAILED=$(grep -E "^FAIL\s+github.com" "$W/suite.log" | awk '{print $2}' | sed 's#github.com/attestantio/vouch#.#')
+  for try in 1 2; do
+    [ -z "$FAILED" ] && break
+    go test -vet=off -count=1 -p 1 $FAILED > "$W/suite2.log" 2>&1 && { SUITE=0; echo "suite: packages [$FAILED] failed under load, passed when re-run alone" >&3; break; }
+    sleep 20
+  done
+fi
 { echo "demo dir $DIR"; echo "demo without change: exit $CLEAN"; tail -3 "$W/demo-clean.log"; echo "build with change: exit $BUILD"; echo "demo with change: exit $MUT"; grep -E "^\s+.*(Error|error|FAIL|expected|signer|violat)" "$W/demo-mut.log" | head -8; echo "existing suite with change: exit $SUITE"; grep -E "^(FAIL|---)" "$W/suite.log" | head; } >&3
 R=OK; [ $CLEAN -ne 0 ] && R="DEMO-FAILS-WITHOUT-CHANGE"; [ $BUILD -ne 0 ] && R="DOES-NOT-BUILD"; [ $MUT -eq 0 ] && R="DEMO-PASSES-WITH-CHANGE"; [ $SUITE -ne 0 ] && R="$R,SUITE-FAILS"
 echo "$P/$X $R (clean=$CLEAN build=$BUILD mut=$MUT suite=$SUITE)"
